@@ -72,6 +72,31 @@ func collectBucketCandidates(sw hydra.Swamp, hints []BucketHint) []treasure.Trea
 	return out
 }
 
+// windowCandidates returns the candidates that the legacy beacon walk would
+// visit for the same request, in the order the beacon yields them. The beacon
+// (not the candidate set) decides ordering, the [fromTime, toTime) range and
+// the From/Limit page, so paging stays a pre-filter operation on both routes,
+// ties keep the beacon's order, and Treasures that are not part of the beacon
+// (e.g. no timestamp on a time index) are never streamed. Only key lookups
+// happen here; no body is decoded.
+func windowCandidates(sw hydra.Swamp, candidates []treasure.Treasure, beaconType hydra.BeaconType, order hydra.BeaconOrder, from int32, limit int32, fromTime, toTime *time.Time) ([]treasure.Treasure, error) {
+	if len(candidates) == 0 {
+		return nil, nil
+	}
+	window, err := sw.GetTreasuresByBeacon(beaconType, order, from, limit, fromTime, toTime)
+	if err != nil {
+		return nil, err
+	}
+	set := candidateKeySet(candidates)
+	out := make([]treasure.Treasure, 0, len(candidates))
+	for _, t := range window {
+		if _, ok := set[t.GetKey()]; ok {
+			out = append(out, t)
+		}
+	}
+	return out, nil
+}
+
 // applyTimeRange filters candidates by the beacon-type's time field
 // against [fromTime, toTime). FromTime is an inclusive lower bound;
 // ToTime is an exclusive upper bound. This mirrors the beacon-walk
